@@ -29,54 +29,58 @@ Theorem gql_cursor_pre_refuted : exists s, lex_gql_pre s = Crash.
 Proof. exists [(233, 1)]. reflexivity. Qed.
 Print Assumptions gql_cursor_pre_refuted.
 
-Theorem graphql_cursor_refuted : exists s, lex_graphql s = Crash.
+Theorem graphql_cursor_pre_refuted : exists s, lex_graphql_pre s = Crash.
 Proof. exists [(34, 0); (34, 0); (34, 0); (233, 1); (34, 0); (34, 0); (34, 0)]. reflexivity. Qed.
-Print Assumptions graphql_cursor_refuted.
+Print Assumptions graphql_cursor_pre_refuted.
 
-Theorem graphql_cursor_ascii : forall s, Forall (fun c => width (cp c) = 1) s -> exists ts, lex_graphql s = Done ts.
-Proof. exact (iter_lexer_ascii_safe graphql_next eq_refl). Qed.
-Print Assumptions graphql_cursor_ascii.
+Theorem graphql_cursor_pre_ascii : forall s, Forall (fun c => width (cp c) = 1) s -> exists ts, lex_graphql_pre s = Done ts.
+Proof. exact (iter_lexer_ascii_safe graphql_next_pre eq_refl). Qed.
+Print Assumptions graphql_cursor_pre_ascii.
 
 (** the block-string values: [dedent_block_string] slices at a byte count (finding C12-K7) *)
-Theorem graphql_dedent_refuted : exists s, (exists ts, lex_graphql s = Done ts) /\ lex_graphql_full s = Crash.
+Theorem graphql_dedent_pre_refuted : exists s, (exists ts, lex_graphql_pre s = Done ts) /\ lex_graphql_full_pre s = Crash.
 Proof.
   exists [(34, 0); (34, 0); (34, 0); (10, 4); (160, 4); (120, 1); (10, 4); (32, 4); (121, 1); (34, 0); (34, 0); (34, 0)].
   split; [eexists|]; vm_compute; reflexivity.
 Qed.
-Print Assumptions graphql_dedent_refuted.
+Print Assumptions graphql_dedent_pre_refuted.
 
 (** [dedent_block_string] can only crash on white space that is wider than one byte ... *)
-Theorem dedent_crash_needs_wide_whitespace : forall v,
-  (forall c, In c v -> is_wsf c = true -> width (cp c) = 1) -> exists r, dedent v = Done r.
+Theorem dedent_pre_crash_needs_wide_whitespace : forall v,
+  (forall c, In c v -> is_wsf c = true -> width (cp c) = 1) -> exists r, dedent_pre v = Done r.
 Proof. exact dedent_total_l. Qed.
-Print Assumptions dedent_crash_needs_wide_whitespace.
+Print Assumptions dedent_pre_crash_needs_wide_whitespace.
 
 (** ... and on ASCII documents the values of all block strings are computed without a crash and
     without running out of fuel (token starts are character counts, hence not negative) *)
-Theorem graphql_block_values_ascii : forall s ts, Forall (fun c => width (cp c) = 1) s ->
-  Forall (fun t : Z * Z * Z => 0 <= snd (fst t)) ts -> exists vs, block_values s ts = Done vs.
+Theorem graphql_block_values_pre_ascii : forall s ts, Forall (fun c => width (cp c) = 1) s ->
+  Forall (fun t : Z * Z * Z => 0 <= snd (fst t)) ts -> exists vs, block_values_pre s ts = Done vs.
 Proof. exact block_values_ascii_l. Qed.
-Print Assumptions graphql_block_values_ascii.
+Print Assumptions graphql_block_values_pre_ascii.
 
-Theorem graphql_full_ascii : forall s, Forall (fun c => width (cp c) = 1) s -> exists r, lex_graphql_full s = Done r.
+Theorem graphql_full_pre_ascii : forall s, Forall (fun c => width (cp c) = 1) s -> exists r, lex_graphql_full_pre s = Done r.
 Proof. exact graphql_full_ascii_l. Qed.
-Print Assumptions graphql_full_ascii.
+Print Assumptions graphql_full_pre_ascii.
 
-(** the lexer with the proposed repair of [peek_next] (lookahead on a clone of the character iterator,
-    proposed-fixes/C12-graphql-lexer-utf8.diff) is total on every text *)
-Theorem graphql_repaired_lexer_total : forall s, exists ts, lex_graphql_repaired s = Done ts.
-Proof. exact (iter_lexer_safe graphql_next_repaired eq_refl). Qed.
-Print Assumptions graphql_repaired_lexer_total.
+(** the lexer as it is now (after 9a1aff1: look-ahead on a clone of the character iterator, checked slicing in
+    dedent) is total on EVERY text, the computation of the block-string values included *)
+Theorem graphql_lexer_total : forall s, exists ts, lex_graphql s = Done ts.
+Proof. exact (iter_lexer_safe graphql_next eq_refl). Qed.
+Print Assumptions graphql_lexer_total.
+
+Theorem graphql_full_total : forall s, exists r, lex_graphql_full s = Done r.
+Proof. exact graphql_full_total_l. Qed.
+Print Assumptions graphql_full_total.
 
 (** * 2. lexer termination: fuel = number of characters + 1 suffices for every lexer, every text *)
 Theorem lex_terminates : forall s,
   lex_gql s <> NoFuel /\ lex_cypher s <> NoFuel /\ lex_sparql s <> NoFuel /\
-  lex_gremlin s <> NoFuel /\ lex_graphql s <> NoFuel.
+  lex_gremlin s <> NoFuel /\ lex_graphql s <> NoFuel /\ lex_graphql_pre s <> NoFuel.
 Proof.
   intro s. repeat split;
     [exact (lexer_terminates Byte gql_next eq_refl s) | exact (lexer_terminates Byte cypher_next eq_refl s)
     | exact (lexer_terminates Byte sparql_next eq_refl s) | exact (lexer_terminates Iter gremlin_next eq_refl s)
-    | exact (lexer_terminates Iter graphql_next eq_refl s)].
+    | exact (lexer_terminates Iter graphql_next eq_refl s) | exact (lexer_terminates Iter graphql_next_pre eq_refl s)].
 Qed.
 Print Assumptions lex_terminates.
 
@@ -125,24 +129,39 @@ Proof. exact slice_range_in_bounds_l. Qed.
 Print Assumptions slice_in_bounds.
 
 (** the integer SUM aggregate adds with the plain operator (finding C12-K8) *)
-Theorem sum_overflow_refuted : exists vs, Forall in_i64 vs /\ sum_int Checked 0 vs = Panic.
+Theorem sum_overflow_pre_refuted : exists vs, Forall in_i64 vs /\ sum_int_pre Checked 0 vs = Panic.
 Proof.
   exists [i64_max; 1]. split; [|reflexivity].
   repeat constructor; unfold in_i64, i64_max, two63; lia.
 Qed.
-Print Assumptions sum_overflow_refuted.
+Print Assumptions sum_overflow_pre_refuted.
 
-Theorem sum_checked_panics_iff : forall vs acc, sum_int Checked acc vs = Panic <-> ~ prefixes_fit acc vs.
+Theorem sum_pre_checked_panics_iff : forall vs acc, sum_int_pre Checked acc vs = Panic <-> ~ prefixes_fit acc vs.
 Proof. exact sum_int_checked_panics_iff_l. Qed.
-Print Assumptions sum_checked_panics_iff.
+Print Assumptions sum_pre_checked_panics_iff.
 
-Theorem sum_exact_when_prefixes_fit : forall m vs acc, prefixes_fit acc vs -> sum_int m acc vs = Ok (acc + zsum vs).
+Theorem sum_pre_exact_when_prefixes_fit : forall m vs acc, prefixes_fit acc vs -> sum_int_pre m acc vs = Ok (acc + zsum vs).
 Proof. exact sum_int_exact_l. Qed.
+Print Assumptions sum_pre_exact_when_prefixes_fit.
+
+Theorem sum_pre_wrapping_never_panics : forall vs acc, sum_int_pre Wrapping acc vs <> Panic.
+Proof. exact sum_int_wrapping_total_l. Qed.
+Print Assumptions sum_pre_wrapping_never_panics.
+
+(** the aggregate as it is now (after a66b89b): an integer total exactly when every partial sum fits, a float
+    otherwise; it agrees with the old code wherever that did not panic *)
+Theorem sum_repair_exact : forall vs acc,
+  sum_int acc vs = match sum_int_pre Checked acc vs with Ok t => Some t | Panic => None end.
+Proof. exact sum_repair_exact_l. Qed.
+Print Assumptions sum_repair_exact.
+
+Theorem sum_exact_when_prefixes_fit : forall vs acc, prefixes_fit acc vs -> sum_int acc vs = Some (acc + zsum vs).
+Proof. exact sum_int_exact_cur_l. Qed.
 Print Assumptions sum_exact_when_prefixes_fit.
 
-Theorem sum_wrapping_never_panics : forall vs acc, sum_int Wrapping acc vs <> Panic.
-Proof. exact sum_int_wrapping_total_l. Qed.
-Print Assumptions sum_wrapping_never_panics.
+Theorem sum_float_iff : forall vs acc, sum_int acc vs = None <-> ~ prefixes_fit acc vs.
+Proof. exact sum_int_float_iff_l. Qed.
+Print Assumptions sum_float_iff.
 
 (** * 4. parser loops and recursion depth *)
 Theorem loops_progress : forall n l more ts, (1 <= n)%nat -> loop_ok n l = true ->
@@ -156,35 +175,46 @@ Theorem parser_loop_tables_pass :
   forallb (loop_ok Cypher.N) Cypher.loops = true /\
   forallb (loop_ok Gremlin.N) Gremlin.loops = true /\
   forallb (loop_ok Graphql.N) Graphql.loops = true /\
-  forallb (loop_ok Sparql.N) Sparql.other_loops = true.
-Proof. exact tables_ok_l. Qed.
+  forallb (loop_ok Sparql.N) Sparql.other_loops = true /\
+  forallb (loop_ok Sparql.N) Sparql.group_loops = true.
+Proof. repeat split; try apply tables_ok_l. Qed.
 Print Assumptions parser_loop_tables_pass.
 
-Theorem sparql_group_loop_refuted : forall l, In l Sparql.group_loops ->
+Theorem sparql_group_loop_pre_refuted : forall l, In l Sparql.group_loops_pre ->
   loop_ok Sparql.N l = false /\ forall fuel more, run_loop fuel l more [Sparql.OTHER] = LNoFuel.
 Proof.
   intros l [<-|[<-|[]]]; (split; [apply sparql_group_not_ok_l|intros; apply sparql_group_stalls_l]).
 Qed.
-Print Assumptions sparql_group_loop_refuted.
+Print Assumptions sparql_group_loop_pre_refuted.
 
-Theorem sparql_group_loop_progress_without_stall : forall l, In l Sparql.group_loops ->
+Theorem sparql_group_loop_pre_progress_without_stall : forall l, In l Sparql.group_loops_pre ->
   forall more ts, Forall (fun k => 1 <= k < Sparql.OTHER) ts ->
   run_loop (S (List.length ts)) l more ts <> LNoFuel.
 Proof.
   intros l [<-|[<-|[]]] more ts Hts; apply sparql_group_progress_l; try assumption; apply Nat.lt_succ_diag_r.
 Qed.
-Print Assumptions sparql_group_loop_progress_without_stall.
+Print Assumptions sparql_group_loop_pre_progress_without_stall.
 
-Theorem depth_unbounded_refuted : forall n, rec_depth (nested n) = Some n /\ List.length (nested n) = (2 * n + 1)%nat.
+Theorem depth_unbounded_pre_refuted : forall n, rec_depth (nested n) = Some n /\ List.length (nested n) = (2 * n + 1)%nat.
 Proof.
   intro n. split; [apply rec_depth_nested_l|].
   unfold nested. rewrite !app_length, !repeat_length. cbn [List.length]. lia.
 Qed.
-Print Assumptions depth_unbounded_refuted.
+Print Assumptions depth_unbounded_pre_refuted.
 
 Theorem depth_limit_bounds : forall L fuel ts m r, descend fuel (Some L) 0 ts = Some (m, r) -> (m <= L)%nat.
 Proof. intros L fuel ts m r H. eapply depth_limited_l; [eassumption|apply Nat.le_0_l]. Qed.
 Print Assumptions depth_limit_bounds.
+
+Theorem depth_bounded_128 : forall fuel ts m r,
+  descend fuel (Some MAX_NESTING_DEPTH) 0 ts = Some (m, r) -> (m <= 128)%nat.
+Proof. intros fuel ts m r H. eapply depth_limited_l; [eassumption|apply Nat.le_0_l]. Qed.
+Print Assumptions depth_bounded_128.
+
+Theorem deep_nest_rejected : rec_depth_cur (nested 128) = Some 128%nat /\ rec_depth_cur (nested 129) = None /\
+  rec_depth_cur (nested 2000) = None.
+Proof. vm_compute. repeat split. Qed.
+Print Assumptions deep_nest_rejected.
 
 (** non-vacuity *)
 Example nv_src : exists s, Forall (fun c => width (cp c) = 1) s /\ s <> [].
@@ -205,8 +235,8 @@ Example nv_i64 : in_i64 i64_min /\ in_i64 i64_max /\ 0 <= 3 < two63.
 Proof. unfold in_i64, i64_min, i64_max, two63. lia. Qed.
 Example nv_arith : arith OAdd i64_max 1 = AVal None /\ arith ODiv 7 2 = AVal (Some 3) /\ arith OMod (-7) 2 = AVal (Some (-1)).
 Proof. repeat split. Qed.
-Example nv_sum : prefixes_fit 0 [i64_max; i64_min; 5] /\ sum_int Checked 0 [i64_max; i64_min; 5] = Ok 4.
-Proof. split; [|reflexivity]. cbn [prefixes_fit]. unfold in_i64, i64_max, i64_min, two63. lia. Qed.
+Example nv_sum : prefixes_fit 0 [i64_max; i64_min; 5] /\ sum_int 0 [i64_max; i64_min; 5] = Some 4 /\ sum_int 0 [i64_max; 1] = None.
+Proof. split; [|split; reflexivity]. cbn [prefixes_fit]. unfold in_i64, i64_max, i64_min, two63. lia. Qed.
 Example nv_loop : exists l, In l Gql.loops /\ loop_ok Gql.N l = true /\
   run_loop 4 l (fun _ => Some 1%nat) [Gql.COMMA; Gql.OTHER; Gql.COMMA; Gql.OTHER] = LExit [].
 Proof. exists (nth 7 Gql.loops (wh String.EmptyString [])). split; [cbn; tauto|split; reflexivity]. Qed.
